@@ -194,12 +194,26 @@ def _check_score_update(ctx, prog, f, call, construct, ref, score_vars: set[str]
         b = getattr(parent, fld, None)
         if isinstance(b, list) and st in b:
             block = b
+    # the score dictionary: the local dict that is compared with / read as the recorded score
+    # (<dict>[ref] on the right-hand side or in a comparison somewhere in the function)
+    read_dicts = set()
+    for n in walk_no_nested(f.node):
+        if isinstance(n, ast.Subscript) and isinstance(n.ctx, ast.Load) and isinstance(n.value, ast.Name) and isinstance(n.slice, ast.Name) and n.slice.id == ref:
+            par = pm.get(id(n))
+            # reads that feed a score comparison or a local score alias (not list copies / appends)
+            if isinstance(par, (ast.Compare, ast.Assign, ast.BoolOp)) or (isinstance(par, ast.Call) and not (isinstance(par.func, ast.Name) and par.func.id in ("list", "tuple", "set", "sorted"))):
+                if not (isinstance(par, ast.Call) and isinstance(par.func, ast.Attribute) and par.func.value is n):
+                    read_dicts.add(n.value.id)
     found = None
+    cands = []
     for s in block or []:
         if isinstance(s, ast.Assign) and len(s.targets) == 1 and isinstance(s.targets[0], ast.Subscript):
             t = s.targets[0]
             if isinstance(t.slice, ast.Name) and t.slice.id == ref and isinstance(t.value, ast.Name):
-                found = s
+                cands.append(s)
+    scored = [s for s in cands if isinstance(s.value, ast.Name) and s.value.id in score_vars]
+    in_read = [s for s in cands if s.targets[0].value.id in read_dicts]
+    found = (scored or in_read or cands or [None])[-1]
     if found is None:
         ctx.violated("R14.4", f, call, construct, "accepted assignment does not record the score of the reference in the same branch", None)
         return
